@@ -85,6 +85,13 @@ func c06Notify(c *core.Ctx) {
 	call := cs.Instr.(*ssa.Call)
 	hdrT := sx.Of(call.Call.Args[2])
 	hdrS := hdrT.String()
+	// newHeader(x.Num, x.Hash) is x again (header has exactly these two fields)
+	if hdrT.Op == "call" && hdrT.Name == "reorgdetector.newHeader" && len(hdrT.Args) == 2 {
+		a, b := hdrT.Args[0].String(), hdrT.Args[1].String()
+		if strings.HasSuffix(a, ".Num") && strings.HasSuffix(b, ".Hash") && strings.TrimSuffix(a, ".Num") == strings.TrimSuffix(b, ".Hash") {
+			hdrS = strings.TrimSuffix(a, ".Num")
+		}
+	}
 	isElem := strings.HasPrefix(hdrS, "(*reorgdetector.headersList).getSorted(") && strings.Contains(hdrS, ")[(loop{const(-1)} + const(1))]")
 	c.Decide(isElem, rule, "call-notifySubscriber#arg", call.Pos(), "the notified block is the current element of a range over getSorted(): "+hdrS)
 	// (c) reachable only on the unequal edge of hdr.Hash == currentHeader(hdr.Num).Hash()
